@@ -25,6 +25,8 @@ WORLDS = [
     {"files": {"m.ts": "ts.multi2", "x/y/z/w.ts": "ts.one61", "x/y/p.py": "py.nested", "q.c": "c.strings", "café.py": "py.one2"},
      "older": [{"op": "delete", "path": "q.c"}, {"op": "write", "path": "x/n.js", "content": "js.one31"}]},
     {"files": {"only.py": "py.empty"}, "older": [{"op": "write", "path": "only.py", "content": "py.one2"}]},
+    {"files": {"caf\udce9.py": "py.one16", "cafe\u0301/we\"ird.js": "js.one31", "back\\slash.c": "c.one2"},
+     "older": [{"op": "write", "path": "caf\udce9.py", "content": "py.one61"}]},
 ]
 KINDS = ("crash", "enospc", "eio")
 STARTS = ("none", "older")
@@ -219,6 +221,7 @@ SIMPLE_FAULTS = (
     + [{"op": "cache_truncate", "frac": f} for f in (0.0, 0.01, 0.25, 0.5, 0.75, 0.99)]
     + [{"op": "cache_truncate", "k": k} for k in (1, 2, 3, 10, 40, 80)]
     + [{"op": "cache_flip", "k": 7919 * j + 13, "xor": (1, 0x20, 0x80, 0x04)[j % 4]} for j in range(24)]
+    + [{"op": "cache_hibit", "field": f, "nth": n} for f in ("unit_name", "language", "checksum", "root", "uuid") for n in (0, 1)]
 )
 
 PARTS_CRASH = 16
@@ -228,7 +231,7 @@ PARTS_STRUCT = 8
 def plan(tier):
     """Enumerated part of the C10 case list: list of (kind, params)."""
     cases = []
-    worlds = (0, 3) if tier == "quick" else (0, 1, 2, 3)
+    worlds = (0, 3, 4) if tier == "quick" else (0, 1, 2, 3, 4)
     kinds = ("crash", "enospc") if tier == "quick" else KINDS
     stride = 6 if tier == "quick" else 1
     for wi in worlds:
@@ -245,7 +248,7 @@ def plan(tier):
     for wi in sworlds:
         for part in range(PARTS_STRUCT * (1 if tier == "quick" else 2)):
             cases.append(("struct", {"wi": wi, "part": part, "parts": PARTS_STRUCT * (1 if tier == "quick" else 2)}))
-    for wi in ((0, 2) if tier == "quick" else (0, 1, 2, 3)):
+    for wi in ((0, 2, 4) if tier == "quick" else (0, 1, 2, 3, 4)):
         for start in STARTS:
             for j in range(len(SIMPLE_FAULTS)):
                 cases.append(("simple", {"wi": wi, "start": start, "j": j}))
